@@ -420,6 +420,11 @@ pub fn run(which: Which, tier: &str, seed: u64, out: &str) {
         if rep.saturated() {
             break;
         }
+        if !thorough && class.name == "F5" && which != Which::C01 {
+            // quick tier: the double-check sub-class matters for the move set (C01); its members
+            // are mostly in check (nothing for C17a to judge) and add no new move type for C02
+            continue;
+        }
         let counts: Vec<(u64, u64)> = par_map(&class.units, |u| {
             let mut n = 0u64;
             let mut t = 0u64;
